@@ -53,9 +53,17 @@ theorem unit_sdiv (a : V3) (h : V3.dot a a ≠ 0) : V3.dot (V3.sdiv a (V3.norm a
 
 /-! ## Beta angle -/
 
-/-- over ℝ the argument of the arcsine is always inside [-1, 1] (Cauchy–Schwarz); the double
-precision code can exceed 1 by one ulp when the body is on the orbit normal: known finding
-C19-beta-normal-nan -/
+/-- `np.clip(x, -1, 1)` is inside [-1, 1] for every real `x`: since fix 1d112fc the arcsine of `beta` is
+never evaluated outside its domain, **for any input** (history: before the fix the double-precision
+quotient could be 1 + 1 ulp for a body on the orbit normal and `beta` was NaN — finding
+C19-beta-normal-nan, now fixed) -/
+theorem beta_clip_in_domain (x : ℝ) : -1 ≤ clipR x (-1) 1 ∧ clipR x (-1) 1 ≤ 1 := by
+  unfold clipR; split_ifs <;> constructor <;> linarith
+
+theorem clip_of_mem (x : ℝ) (h0 : -1 ≤ x) (h1 : x ≤ 1) : clipR x (-1) 1 = x := by
+  unfold clipR; rw [if_neg (by linarith), if_neg (by linarith)]
+
+/-- over ℝ the quotient is inside [-1, 1] anyway (Cauchy–Schwarz): the clip changes nothing but rounding -/
 theorem beta_arg_in_domain (p v ref : V3) (hw : V3.dot (V3.cross p v) (V3.cross p v) ≠ 0) (hr : V3.dot ref ref ≠ 0) :
     |V3.dot (V3.cross p v) ref / (V3.norm (V3.cross p v) * V3.norm ref)| ≤ 1 := by
   have h1 := norm_pos _ hw
@@ -64,7 +72,7 @@ theorem beta_arg_in_domain (p v ref : V3) (hw : V3.dot (V3.cross p v) (V3.cross 
   have h := Real.abs_le_sqrt (dot_sq_le (V3.cross p v) ref)
   rwa [Real.sqrt_mul (dot_self_nonneg _)] at h
 
-/-- **The beta angle lies in [-90°, 90°]** -/
+/-- **The beta angle lies in [-90°, 90°]** (all inputs) -/
 theorem beta_range (p v ref : V3) : -(pi / 2) ≤ betaAngle p v ref ∧ betaAngle p v ref ≤ pi / 2 :=
   ⟨Real.neg_pi_div_two_le_arcsin _, Real.arcsin_le_pi_div_two _⟩
 
@@ -79,8 +87,8 @@ theorem beta_is_elevation (p v ref : V3) (hw : V3.dot (V3.cross p v) (V3.cross p
   have hd := abs_le.mp (beta_arg_in_domain p v ref hw hr)
   rw [dot_sdiv]
   constructor
-  · simp only [betaAngle, asin]; rw [Real.sin_arcsin hd.1 hd.2]
-  · simp only [betaAngle, asin]; rw [Real.arcsin_eq_pi_div_two_sub_arccos]
+  · simp only [betaAngle, asin]; rw [clip_of_mem _ hd.1 hd.2, Real.sin_arcsin hd.1 hd.2]
+  · simp only [betaAngle, asin]; rw [clip_of_mem _ hd.1 hd.2, Real.arcsin_eq_pi_div_two_sub_arccos]
 
 example : V3.dot (V3.cross ⟨1, 0, 0⟩ ⟨0, 1, 0⟩) (V3.cross ⟨1, 0, 0⟩ ⟨0, 1, 0⟩) ≠ 0 := by
   simp [V3.dot, V3.cross]
